@@ -332,10 +332,20 @@ def result(how=None):
     (coherent shapes / variances); deterministic: eval_fixed, or bootstrap with a seeded RNG"""
     def prov(draw, dims):
         h = how or draw(st.sampled_from(['eval_fixed', 'eval_bootstrap_rdm']))
+        dims['_how'] = h
         return {'kind': 'result', 'how': h,
                 'models': models(NOSELECT, 2, 3, as_single=False)(draw, dims),
                 'data': rdms()(draw, dims), 'method': draw(st.sampled_from(['cosine', 'corr'])),
                 'seed': draw(st.integers(0, 1000))}
+    return prov
+
+
+def test_type():
+    """a test type the Result of result() supports (ranksum needs per-RDM evaluations, bootstrap
+    needs bootstrap samples)"""
+    def prov(draw, dims):
+        other = 'ranksum' if dims.get('_how') == 'eval_fixed' else 'bootstrap'
+        return {'kind': 'lit', 'v': draw(st.sampled_from(['t-test', other]))}
     return prov
 
 
@@ -369,7 +379,7 @@ def desc_dict(n_key, arrays=True):
 
 
 COMPARE_METHODS = ['cosine', 'spearman', 'corr', 'kendall', 'tau-a', 'rho-a', 'corr_cov',
-                   'cosine_cov', 'neg_riemann', 'bures', 'bures_metric']
+                   'cosine_cov', 'neg_riem_dist', 'bures', 'bures_metric']
 EVAL_METHODS = ['cosine', 'corr', 'spearman', 'rho-a', 'tau-a', 'corr_cov', 'cosine_cov']
 NOISE_METHODS = ['full', 'diag', 'shrinkage_eye', 'shrinkage_diag']
 
@@ -431,7 +441,8 @@ _RD = ['subj', 'sess']
 _PD = ['cond', 'cat']
 spec('rdm.rdms.RDMs.__getitem__', idx=index_of('self'))
 spec('rdm.rdms.RDMs.__eq__', other=R)
-spec('rdm.rdms.RDMs.mean', self=rdms(weights=True),
+# (a descriptor name as weights raises on the pinned tree: C13's defect #17)
+spec('rdm.rdms.RDMs.mean', _max_reject=0.6, self=rdms(weights=True),
      weights=one_of(const(None), array(('n_rdm', lambda d: n_pairs(d['n_cond'])), 1, 8, 4.0),
                     array(('n_rdm', lambda d: n_pairs(d['n_cond'])), 1, 8, 4.0), const('w')))
 for _m in ('subset', 'subsample'):
@@ -582,7 +593,8 @@ spec('model.fitter.fit_mock', model=model(), **_fit_common)
 spec('model.fitter.fit_select', model=model('ModelSelect'), **_fit_common)
 spec('model.fitter.fit_interpolate', model=model('ModelInterpolate'), **_fit_common)
 for _f in ('fit_optimize', 'fit_optimize_positive', 'fit_regress', 'fit_regress_nn'):
-    spec('model.fitter.' + _f, model=model('ModelWeighted'), ridge_weight=lit(0, 0.5), **_fit_common)
+    spec('model.fitter.' + _f, model=model('ModelWeighted'), ridge_weight=lit(0, 0.5),
+         _dims=dict(n_cond=(4, 6), n_rdm=(2, 3)), _watchdog=10, **_fit_common)
 
 # --- inference
 _big = dict(n_cond=(8, 10), n_rdm=(4, 6))
@@ -612,7 +624,7 @@ spec('inference.evaluate.eval_dual_bootstrap_random', _quick=6, models=models(hi
      method=lit('cosine', 'corr'), fitter=const(None), n_pattern=const(None), n_rdm=const(None),
      N=const(2), n_cv=const(2), pattern_descriptor=lit('index', 'cond'),
      rdm_descriptor=lit('index', 'subj'), boot_type=lit('both', 'rdm', 'pattern'),
-     use_correction=lit(True, False), _dims=_big)
+     use_correction=const(True), _dims=_big)   # other n_cv / correction settings raise (not C12)
 for _f in ('bootstrap_testset', 'bootstrap_testset_pattern', 'bootstrap_testset_rdm'):
     _kw = dict(models=models(hi=2), data=R, method=lit('cosine', 'corr'), fitter=const(None),
                N=const(2), _quick=8)
@@ -650,7 +662,7 @@ _RES = 'inference.result.Result.'
 spec(_RES + 'get_ci', ci_percent=lit(0.95, 0.5), test_type=lit('t-test', 'bootstrap'))
 spec(_RES + 'get_errorbars', eb_type=lit('sem', 'ci', 'ci99'), test_type=lit('t-test',))
 for _m in ('summary', 'test_all', 'test_pairwise', 'test_zero', 'test_noise'):
-    spec(_RES + _m, test_type=lit('t-test', 't-test', 't-test', 'bootstrap', 'ranksum'))
+    spec(_RES + _m, test_type=test_type())
 spec(_RES + 'save', filename=tmpfile('pkl', 'h5'), file_type=filetype_of(), overwrite=const(True))
 spec('inference.result.load_results', filename=savedfile(result(), 'pkl', 'h5'))
 spec('inference.result.result_from_dict', result_dict=to_dict_of(result()))
@@ -716,7 +728,7 @@ spec(_mx + 'square_category_binary_mask', category_idxs=lit([0, 2], [1]), size=l
 spec(_mx + 'square_between_category_binary_mask', category_1_idxs=lit([0, 2], [1]),
      category_2_idxs=lit([3], [1, 3]), size=lit(4, 5))
 spec('util.pooling.pool_rdm', method=lit('cosine', 'corr', 'spearman', 'rho-a', 'cosine_cov',
-                                          'corr_cov', 'kendall', 'neg_riemann'),
+                                          'corr_cov', 'kendall', 'tau-a', 'euclid'),
      sigma_k=one_of(const(None), spd('n_cond')))
 _ru = 'util.rdm_utils.'
 spec(_ru + 'add_pattern_index', pattern_descriptor=lit('cond', 'cat', 'index'))
